@@ -97,7 +97,7 @@ var tmpls = map[string]tmplInfo{
 	"PX": {"var m string\nstream|from(", nil},
 }
 
-var taskIDs = []string{"a", "b", "c", "d", "a.b"}
+var taskIDs = []string{"a", "b", "c", "d", "a.b", ".", ".."}
 var badTaskIDs = []string{"bad/id", "sp ace", ""}
 var tmplIDs = []string{"t1", "t2"}
 
@@ -444,9 +444,13 @@ func genRequest(r *core.Rng, c catalogue) request {
 		rq := request{desc: fmt.Sprintf("create task %q script=%s dbrps=%v status=%q", id, sk, explicit, status), method: "POST", path: "/tasks", body: body}
 		_, exists := c.Tasks[id]
 		badID := strings.ContainsAny(id, "/ ")
+		dotID := id == "." || id == ".."
 		okDBRP := explicit != s.hasDBRP
 		switch {
 		case exists || badID || !s.valid || !okDBRP:
+			rq.class = "invalid"
+		case dotID:
+			// "." and ".." are path elements: they can never be listed or addressed
 			rq.class = "invalid"
 		case s.startable || statusOf(status) != "enabled":
 			rq.class = "valid"
@@ -557,7 +561,7 @@ func genRequest(r *core.Rng, c catalogue) request {
 		rq := request{desc: fmt.Sprintf("rename task %q to %q", id, nid), method: "PATCH", path: "/tasks/" + id, body: map[string]interface{}{"id": nid}}
 		_, exists := c.Tasks[id]
 		_, clash := c.Tasks[nid]
-		if !exists {
+		if !exists || nid == "." || nid == ".." {
 			rq.class = "invalid"
 		}
 		if exists && clash && nid != id {
@@ -581,6 +585,9 @@ func genRequest(r *core.Rng, c catalogue) request {
 	case k < 15: // delete a task
 		id := existing()
 		rq := request{desc: fmt.Sprintf("delete task %q", id), method: "DELETE", path: "/tasks/" + id, class: "valid"}
+		if id == "." || id == ".." {
+			rq.class = "" // the HTTP layer cleans such a path (redirect)
+		}
 		rq.apply = func(c catalogue) (catalogue, map[string]bool) {
 			n := c.clone()
 			if t, ok := n.Tasks[id]; ok {
@@ -730,6 +737,13 @@ func (prop) Run(x *core.Ctx) {
 			}
 			if d.tm.IsExecuting(id) != t.Executing {
 				fail("executing-flag-wrong", "the API's executing flag disagrees with the task master", "%s: task %q: API %v, task master %v", where, id, t.Executing, d.tm.IsExecuting(id))
+				return false
+			}
+		}
+		// nothing may execute that the catalogue does not list
+		for _, id := range taskIDs {
+			if _, ok := c.Tasks[id]; !ok && d.tm.IsExecuting(id) {
+				fail("executing-but-undefined", "a task that is not in the catalogue is executing", "%s: task %q is executing in the task master but is not defined", where, id)
 				return false
 			}
 		}
